@@ -471,12 +471,15 @@ class Table:
         if not p:
             return '0'
         terms = []
-        for m, c in sorted(p.items(), key=lambda kv: (len(kv[0]), str(kv[0]))):
+        items = []
+        for m, c in p.items():
             fs = []
             for a, e in m:
                 s = self.fmt_atom(a)
                 fs.append(s if e == 1 else '%s**%d' % (s, e))
-            body = '*'.join(fs)
+            # the printed form does not depend on the order in which atoms were interned
+            items.append((len(m), '*'.join(sorted(fs)), c))
+        for _, body, c in sorted(items, key=lambda t: (t[0], t[1])):
             if not body:
                 terms.append(str(c))
             elif c == 1:
